@@ -678,4 +678,65 @@ example :
       [(0, 1, 3), (1, 2, 3), (2, 3, 3), (3, 4, 3)])).1.err = true := by
   decide +kernel
 
+
+/-! ### … applied to what `removeOverlap` hands the solver -/
+
+/-- the solver instance of one layer: the variables `[left wall,] items…, [right wall]` (unit scales) and one constraint per pair of neighbours -/
+def layerVars (o : Layout.ROpts) (its : List Layout.LItem) : List (Rat × Rat × Rat) :=
+  (Layout.chainVars o its).map (fun v => (v.t, v.w, 1))
+
+def layerCons (o : Layout.ROpts) (its : List Layout.LItem) : List (Nat × Nat × Rat) :=
+  (Layout.chainGaps o its).zipIdx.map (fun p => (p.2, p.2 + 1, p.1))
+
+/-- **the transliterated general solver on a layer of `removeOverlap`, unconditionally**: whatever the layer (any items, any bounds and spacings)
+and in whatever ORDER the neighbour constraints are listed (the code lists the label pairs first and the two wall constraints last), `solve`
+terminates (outer fuel 2, inner fuel > number of variables) and returns the least-squares optimum among all placements that keep every gap -/
+theorem removeOverlap_layer_solved (o : Layout.ROpts) (its : List Layout.LItem) (hne : its ≠ [])
+    (cons : List (Nat × Nat × Rat)) (hperm : cons.Perm (layerCons o its)) (fuel sfuel : Nat) (hfuel : 2 ≤ fuel)
+    (hf : (layerVars o its).length < sfuel) :
+    (Vpsc.solve fuel sfuel (Vpsc.init (layerVars o its) cons)).1.err = false ∧
+    ∀ z : List Rat, z.length = (layerVars o its).length → Feasible (qpInst (layerVars o its) cons) z →
+      cost (qpInst (layerVars o its) cons) (Vpsc.positions (Vpsc.solve fuel sfuel (Vpsc.init (layerVars o its) cons)).1)
+        ≤ cost (qpInst (layerVars o its) cons) z := by
+  have hlen := Layout.chain_lengths o hne
+  have hvl : (layerVars o its).length = (Layout.chainVars o its).length := by simp [layerVars]
+  have hmem : ∀ c ∈ cons, ∃ i, i < (Layout.chainGaps o its).length ∧ c.1 = i ∧ c.2.1 = i + 1 := by
+    intro c hc
+    have hc' := hperm.subset hc
+    simp only [layerCons, List.mem_map] at hc'
+    obtain ⟨p, hp, rfl⟩ := hc'
+    have := List.mem_zipIdx_iff_getElem?.mp hp
+    have hlt : p.2 < (Layout.chainGaps o its).length := (List.getElem?_eq_some_iff.mp this).1
+    exact ⟨p.2, hlt, rfl, rfl⟩
+  have hidx : ∀ c ∈ cons, c.1 < (layerVars o its).length ∧ c.2.1 < (layerVars o its).length := by
+    intro c hc
+    obtain ⟨i, hi, h1, h2⟩ := hmem c hc
+    rw [hvl, h1, h2]; omega
+  have hw : ∀ v ∈ layerVars o its, 0 < v.2.1 := by
+    intro v hv
+    simp only [layerVars, List.mem_map] at hv
+    obtain ⟨x, hx, rfl⟩ := hv
+    exact Layout.chainVars_pos o its x hx
+  have hsc : ∀ v ∈ layerVars o its, v.2.2 = 1 := by
+    intro v hv
+    simp only [layerVars, List.mem_map] at hv
+    obtain ⟨x, _, rfl⟩ := hv
+    rfl
+  have hpath : ∀ c ∈ cons, c.2.1 = c.1 + 1 := by
+    intro c hc
+    obtain ⟨i, _, h1, h2⟩ := hmem c hc
+    rw [h1, h2]
+  have hnd : (cons.map (·.1)).Nodup := by
+    have h1 : ((layerCons o its).map (·.1)).Nodup := by
+      have e : (layerCons o its).map (·.1) = List.range (Layout.chainGaps o its).length := by
+        simp only [layerCons, List.map_map]
+        apply List.ext_getElem
+        · simp
+        · intro i h1 h2
+          simp
+      rw [e]; exact List.nodup_range
+    exact ((hperm.map (·.1)).nodup_iff).mpr h1
+  exact ⟨path_solve_terminates _ _ hidx hw hsc hpath hnd fuel sfuel hfuel hf,
+    fun z hz hfe => path_solve_optimal _ _ hidx hw hsc hpath hnd fuel sfuel hfuel hf z hz hfe⟩
+
 end Labella.C05
